@@ -332,12 +332,11 @@ func (x *execState) runOp(i int, capture bool) (res opResult) {
 			errs := validator.Validate(x.schemas[op.S], x.docs[[2]int{op.S, op.D}])
 			res.obs = append(res.obs, Obs{vkey, gen.RenderErrors(errs), i})
 		case "query":
+			// LoadQuery is an entry point of its own: the property promises that each
+			// way of validating is repeatable, not that two entry points agree with
+			// each other (a change to one of them must not make this check cry wolf)
 			_, errs := gqlparser.LoadQuery(x.schemas[op.S], s.Docs[op.D])
-			k := vkey
-			if s.NamedDocs {
-				k = fmt.Sprintf("Q|%d|%d", op.S, op.D) // LoadQuery parses from an unnamed source: errors carry no file name
-			}
-			res.obs = append(res.obs, Obs{k, gen.RenderErrors(errs), i})
+			res.obs = append(res.obs, Obs{fmt.Sprintf("Q|%d|%d", op.S, op.D), gen.RenderErrors(errs), i})
 		default:
 			res.skipped = true
 		}
@@ -998,6 +997,8 @@ func c10Main(args []string) {
 							k.Doc = s.Docs[di]
 							if strings.HasPrefix(o.Key, "V|") {
 								k.DocName = docName(s, di)
+							} else {
+								k.Kind = "Q"
 							}
 						}
 						k.Cuts, k.SameName, k.BuiltIn = cutsOf(s, si), s.SplitSameName, s.SplitBuiltIn
@@ -1133,18 +1134,21 @@ func evalIsolated(k *isoKey) (res isoResult) {
 			res.B = res.A
 			return
 		}
+		// twice through the SAME entry point, the second time on the schema
+		// object the first evaluation has used
+		if k.Kind == "Q" {
+			_, errs := gqlparser.LoadQuery(sc, k.Doc)
+			res.A = gen.RenderErrors(errs)
+			verifsim.BeginClock(verifsim.ClockCfg{Seed: 0xb22, Mode: verifsim.ClockJumpy})
+			_, errs2 := gqlparser.LoadQuery(sc, k.Doc)
+			res.B = gen.RenderErrors(errs2)
+			return
+		}
 		_, errs := validateSource(sc, &ast.Source{Name: k.DocName, Input: k.Doc})
 		res.A = gen.RenderErrors(errs)
 		verifsim.BeginClock(verifsim.ClockCfg{Seed: 0xb22, Mode: verifsim.ClockJumpy})
-		if k.DocName == "" {
-			_, errs2 := gqlparser.LoadQuery(sc, k.Doc)
-			res.B = gen.RenderErrors(errs2)
-		} else {
-			// LoadQuery parses from an unnamed source (no file name in its
-			// errors): a second parse + validation on the same schema object
-			_, errs2 := validateSource(sc, &ast.Source{Name: k.DocName, Input: k.Doc})
-			res.B = gen.RenderErrors(errs2)
-		}
+		_, errs2 := validateSource(sc, &ast.Source{Name: k.DocName, Input: k.Doc})
+		res.B = gen.RenderErrors(errs2)
 	})
 	if p != "" {
 		if res.A == "" {
